@@ -62,6 +62,7 @@ type Ctx struct {
 	corrImport string
 	caseType   string
 	distinct   map[string]bool
+	perKind    map[string]int
 	dist       map[string]int
 }
 
@@ -125,6 +126,20 @@ func (c *Ctx) CorrInit(importPath, file string, perShard int) {
 
 // Case adds one correspondence case: a Coq term of the module's `case` type, and its JSON description.
 func (c *Ctx) Case(term string, desc any) {
+	// thorough tier: the oracle sees every case, the Coq correspondence a capped unbiased prefix per case kind
+	if c.Tier == "thorough" {
+		kind := term
+		if i := strings.IndexAny(term, " ("); i > 0 {
+			kind = term[:i]
+		}
+		if c.perKind == nil {
+			c.perKind = map[string]int{}
+		}
+		c.perKind[kind]++
+		if c.perKind[kind] > 8000 {
+			return
+		}
+	}
 	c.curJSON[fmt.Sprint(len(c.curTerms))] = desc
 	c.curTerms = append(c.curTerms, term)
 	c.Sum.CorrCases++
